@@ -197,6 +197,11 @@ func (reader *H264Reader) NextNAL() (*NAL, error) {
 	reader.nalBuffer = nil
 	nal.parseHeader()
 
+	// The last NAL of the stream is not followed by a start code, so it was not filtered above.
+	if !reader.includeSEI && nal.UnitType == NalUnitTypeSEI {
+		return nil, io.EOF
+	}
+
 	return nal, nil
 }
 
